@@ -369,6 +369,7 @@ class TxChecker:
     def __init__(self, tx, n_in, amount, sighash_mode="btc"):
         self.tx, self.n_in, self.amount, self.mode = tx, n_in, amount, sighash_mode
         self.sighash_calls = []
+        self.sig_results = []        # (hash type, digest, verified) per attempted verification, for coverage labels
 
     def sighash(self, script_code, hash_type, sigversion):
         m = self.mode
@@ -401,7 +402,9 @@ class TxChecker:
         self.sighash_calls.append((hash_type, z))
         if z is None:
             return False
-        return ecdsa_verify(pt, z, r, s)
+        ok = ecdsa_verify(pt, z, r, s)
+        self.sig_results.append((hash_type, z, ok))
+        return ok
 
     def check_locktime(self, n):
         lt = self.tx["locktime"]
